@@ -523,6 +523,9 @@ func streamC15(c *Ctx) {
 	if !consumerErrors(c, bes) {
 		return
 	}
+	if !keySizeLimits(c) {
+		return
+	}
 	nSets := c.N(60, 1500)
 	alphabet := []string{"a", "b", "ab", "b\x00", "c", "c:", "c:a", "c:a;d:1", "c:a;i:x;", "coll:a", "d", "\xff", "\xff\xff", "a\xff", "", "z"}
 	for si := 0; si < nSets; si++ {
